@@ -19,6 +19,7 @@ def group_runs(g, tier):
             W('mem', 'paths', frac=0.10 if q else 1.0, length=2),
             W('mem', 'random', walks=40 if q else 2000, length=40),
             W('mem', 'random', names='prefix', walks=20 if q else 500, length=40),
+            W('mem', 'random', names='prefix2', walks=12 if q else 400, length=40), W('mem', 'random', lts='deep', names='prefix2', walks=8 if q else 300, length=40),
             W('mem', 'random', names='dotted', walks=20 if q else 500, length=40),
             W('mem', 'random', names='multi', b=3, walks=20 if q else 500, length=40),
             W('mem', 'random', names='long', b=4096, walks=6 if q else 100, length=30),
@@ -44,6 +45,7 @@ def group_runs(g, tier):
             W('alt(zr/zs,phys)', 'random', names='dotted', walks=8 if q else 300, length=40),
             W('alt(/,mem)', 'random', walks=10 if q else 300, length=40),
             W('alt(zr/zs/zt,mem)', 'random', names='prefix', walks=10 if q else 300, length=40),
+            W('alt(zr,mem)', 'random', names='prefix2', walks=8 if q else 300, length=40),
             W('alt(zr,alt(zs,mem))', 'random', names='multi', walks=10 if q else 300, length=40),
             W('alt(zr,ovl(mem,mem))', 'random', walks=10 if q else 300, length=40),
         ]
@@ -58,6 +60,7 @@ def group_runs(g, tier):
             W('ovl(phys,phys)', 'random', walks=8 if q else 500, length=40, split=True),
             W('ovl(mem,phys)', 'random', names='dotted', walks=6 if q else 300, length=40, split=True),
             W('ovl(alt(zu,mem),mem)', 'random', names='prefix', walks=8 if q else 300, length=40, split=True),
+            W('ovl(mem,mem)', 'random', names='prefix2', walks=8 if q else 300, length=40, split=True),
             W('ovl(ovl(mem,mem),mem)', 'random', names='multi', walks=8 if q else 300, length=40, split=True),
             W('ovl(mem,mem)', 'edges', lts='deep', frac=0.08 if q else 1.0, split=True),
             W('ovl(mem,mem,mem)', 'random', lts='deep', walks=15 if q else 1000, length=40, split=True),
@@ -111,7 +114,7 @@ def group_runs(g, tier):
         def H(cfg, names='ascii', b=1, walks=40, depth=1, nz=False):
             return dict(kind='handles', cfg=cfg, names=names, b=b, walks=walks, len=60, lower=False, depth=depth, extreme=True, inst='MC_Handles_q', tspec='Trace_Handles', no_zero_read=nz)
         return [
-            W('async:mem', 'edges', frac=0.04 if q else 1.0), W('async:mem', 'random', names='prefix', walks=15 * k, length=40),
+            W('async:mem', 'edges', frac=0.04 if q else 1.0), W('async:mem', 'random', names='prefix', walks=15 * k, length=40), W('async:mem', 'random', names='prefix2', walks=10 * k, length=40),
             W('async:phys', 'edges', frac=0.015 if q else 0.5), W('async:phys', 'random', names='multi', b=8193, walks=6 * k, length=30),
             W('async:alt(zr,mem)', 'random', names='dotted', walks=12 * k, length=40), W('async:alt(zr/zs,phys)', 'random', walks=6 * k, length=30),
             W('async:ovl(mem,mem)', 'edges', frac=0.02 if q else 0.5), W('async:ovl(mem,mem)', 'random', walks=15 * k, length=40, lts='deep'),
